@@ -187,6 +187,11 @@ def run(chk):
     producers = [("alias", af, fresh.generators[0].iter if isinstance(fresh, ast.DictComp) else None)]
     tctor = next((c for c in calls_in(tr) if dotted(c.func) == "Alias"), None)
     tum = kwarg(tctor, "uuid_map") if tctor is not None else None
+    if isinstance(tum, ast.Name):
+        # the map may be built in a local first
+        defs = [a.value for a in ast.walk(tr) if isinstance(a, ast.Assign) and len(a.targets) == 1 and norm(a.targets[0]) == tum.id]
+        if len(defs) == 1:
+            tum = defs[0]
     producers.append(("transfer_col_references", tr, tum.generators[0].iter if isinstance(tum, ast.DictComp) else None))
     order = {"PART": 0, "VIS": 1, "COLS": 2}
     for name, fnode, it in producers:
